@@ -99,6 +99,22 @@ func searchCorpus(r *rand.Rand, i int) searchRoot {
 		}
 		return searchRoot{gen.Playout(r, start, 4+r.Intn(14), gen.Shuffly), "shuffled"}
 	case 3: // clocks close to the fifty-move limit
+		if r.Intn(3) == 0 {
+			// ... with a quiet mate in one available on the very move that completes the hundred plies
+			for try := 0; try < 60; try++ {
+				p := gen.TacticOK(r, 8)
+				for _, m := range p.LegalMoves() {
+					if m.Capture != 0 || m.Piece == ref.Pawn {
+						continue
+					}
+					q := p.Apply(m)
+					if q.InCheck(q.White) && len(q.LegalMoves()) == 0 {
+						p.Half = 99
+						return searchRoot{gen.Hist{Start: p}, "clock99-quiet-mate"}
+					}
+				}
+			}
+		}
 		p := gen.TacticOK(r, 8+r.Intn(2))
 		p.Half = 94 + r.Intn(6)
 		return searchRoot{gen.Playout(r, p, r.Intn(3), gen.NoProgress), "clock95+"}
